@@ -298,9 +298,31 @@ Definition run (cfg : runcfg) (fs : fstate) : list effect * fstate :=
   let '(e, d) := run_ma (mode_of (fs_mode fs)) (asof_of (fs_mode fs)) cfg (dirs_of fs) in
   (e, {| fs_mode := fs_mode fs; fs_local := d_local d; fs_upload := d_upload d |}).
 
-(* ---- the counter package's side: Open reads the mode once ---- *)
+(* ---- the counter package's side (internal/counter/file.go Open, rotate1, Add).
+   The mode file is read by Open and again by EVERY rotate1 (the call Open
+   makes, and each later call by the weekly rotation timer): with mode off,
+   rotate1 fails with ErrDisabled and drops the mapping; once failed (f.err)
+   it does nothing any more.  Add never reads the mode: it stores into the
+   mapped file when there is one, else it counts in memory.
+   OpSetMode is the environment (gotelemetry on/off/local, SetMode) replacing
+   the mode file between the process's steps. ---- *)
 Inductive pstate := PUnopened | PDisabled | PMapped.
-Inductive op := OpOpen | OpAdd | OpRun (cfg : runcfg).
+Inductive op :=
+| OpOpen | OpAdd | OpRun (cfg : runcfg)
+| OpRotate (expired : bool)          (* rotate1 again; expired: CounterTime reached the file's end *)
+| OpSetMode (file : option bytes).
+
+Definition rotate1_step (expired : bool) (fs : fstate) (p : pstate) : list effect * pstate :=
+  match p with
+  | PDisabled => ([], PDisabled)                               (* f.err != nil: nothing to do *)
+  | PUnopened =>
+      if beq (mode_of (fs_mode fs)) m_off then ([EReadMode], PDisabled)
+      else ([EReadMode; ECounterFile], PMapped)
+  | PMapped =>
+      if beq (mode_of (fs_mode fs)) m_off then ([EReadMode], PDisabled)
+      else if expired then ([EReadMode; ECounterFile], PMapped)   (* new week: new file *)
+      else ([EReadMode], PMapped)                                 (* same span: keep the file *)
+  end.
 
 Definition step (o : op) (st : fstate * pstate) : list effect * (fstate * pstate) :=
   let '(fs, p) := st in
@@ -314,6 +336,9 @@ Definition step (o : op) (st : fstate * pstate) : list effect * (fstate * pstate
       end
   | OpAdd => match p with PMapped => ([ECounterAdd], st) | _ => ([], st) end
   | OpRun cfg => let '(e, fs') := run cfg fs in (e, (fs', p))
+  | OpRotate expired => let '(e, p') := rotate1_step expired fs p in (e, (fs, p'))
+  | OpSetMode f =>
+      ([], ({| fs_mode := f; fs_local := fs_local fs; fs_upload := fs_upload fs |}, p))
   end.
 
 Fixpoint exec (ops : list op) (st : fstate * pstate) : list effect * (fstate * pstate) :=
